@@ -96,7 +96,11 @@ class Builder:
                 with open(p, "w") as f:
                     f.write(sources[name])
                 o = p[:-3] + ".o"
-                cmd = [cxx, "-std=" + tc[1], "-O0", "-w", "-I", inc, "-c", p, "-o", o]
+                # No warning option is enabled or promoted (C20 is about acceptance, not warnings),
+                # with one exception that cannot touch Au: -Werror=format.  Only the probe itself
+                # calls printf; this guards the probe generator against passing a wrong type
+                # through varargs, which would be undefined behaviour inside the oracle.
+                cmd = [cxx, "-std=" + tc[1], "-O0", "-Wformat", "-Werror=format", "-I", inc, "-c", p, "-o", o]
                 r = subprocess.run(cmd, cwd=src, stdout=subprocess.PIPE, stderr=subprocess.STDOUT, timeout=COMPILE_TIMEOUT_S)
                 if r.returncode != 0:
                     return {"ok": False, "stage": "compile:" + name, "diag": _head(r.stdout, d), "stdout": "", "rc": None}
